@@ -479,7 +479,15 @@ func (h *c14H) receive(g *c14Gen, s int, ev Event) (bool, error) {
 	k := h.attempt[[2]int{s, r}]
 	h.attempt[[2]int{s, r}] = k + 1
 	o := h.outcome(s, r, k)
-	h.ledger = append(h.ledger, fmt.Sprintf("%d.%d:%s:%d:%s", s, r, c14TypeName(ev.Type), ev.Retries, o))
+	// the delivered event must carry the transaction and (payload events) the payload, also when it was read back from
+	// the shelf after a restart
+	content := ""
+	if r < 0 || ev.Transaction == nil || !ev.Transaction.Ref().Equals(ev.Hash) ||
+		(ev.Type == PayloadEventType && !bytes.Equal(ev.Payload, h.pool[r].payload)) ||
+		(ev.Type == TransactionEventType && len(ev.Payload) != 0 && !bytes.Equal(ev.Payload, h.pool[r].payload)) {
+		content = "!content"
+	}
+	h.ledger = append(h.ledger, fmt.Sprintf("%d.%d:%s:%d:%s%s", s, r, c14TypeName(ev.Type), ev.Retries, o, content))
 	h.calls = append(h.calls, [3]int{s, r, k})
 	h.callOut = append(h.callOut, o)
 	if fl != nil {
@@ -624,6 +632,23 @@ func (h *c14H) observe(status string, ledgerFrom int) string {
 			}
 		}
 	}
+	// what the operator sees: the failed_events count of the state's diagnostics (asked whenever GetFailedEvents was)
+	diag := 0
+	asked := full
+	for _, n := range near {
+		asked = asked || n
+	}
+	if asked {
+		diag = -1
+		for _, d := range g.st.Diagnostics() {
+			if d.Name() == "failed_events" {
+				if v, ok := d.Result().(int); ok {
+					diag = v
+				}
+			}
+		}
+	}
+	failed = append(failed, fmt.Sprintf("d=%d", diag))
 	sb.WriteString(strings.Join(jobs, ","))
 	sb.WriteString("|F:")
 	sb.WriteString(strings.Join(failed, ","))
